@@ -144,7 +144,7 @@ func c18R1(h H) {
 
 func c18R2(h H) {
 	r := h.r
-	r.Rule("R2", "header rewriting: gzipResponseWriter.WriteHeader calls Del(\"Content-Length\") and Set(\"Content-Encoding\",\"gzip\") before the underlying WriteHeader; ResponseFilterWriter.WriteHeader calls ShouldCompress inside a loop over all filters and reaches either underlying WriteHeader only after that loop; ResponseFilterWriter.Write sends bytes to the gzip writer only on the shouldCompress edge and to the raw writer only on the other; no function of package gzip sets or adds Content-Length", 5)
+	r.Rule("R2", "header rewriting: gzipResponseWriter.WriteHeader calls Del(\"Content-Length\") and Set(\"Content-Encoding\",\"gzip\") before the underlying WriteHeader; ResponseFilterWriter along WriteHeader/Write sequences (E10; two scripted filters, also a header written twice and early hints): the filters are consulted before the first commit, the header goes through the gzip writer exactly when all agree, and everything later takes the route the first header announced; ResponseFilterWriter.Write sends bytes to the gzip writer only on the shouldCompress edge and to the raw writer only on the other; no function of package gzip sets or adds Content-Length", 5)
 	if fn := h.fn("R2", gzPkg, "(*gzipResponseWriter).WriteHeader"); fn != nil {
 		var under []ssa.Instruction
 		allInstrs(fn, func(in ssa.Instruction) {
@@ -182,40 +182,10 @@ func c18R2(h H) {
 		}
 	}
 	if fn := h.fn("R2", gzPkg, "(*ResponseFilterWriter).WriteHeader"); fn != nil {
-		hd, _ := loopOverField(fn, "filters")
-		var under []ssa.Instruction
-		allInstrs(fn, func(in ssa.Instruction) {
-			if c := callOf(in); c != nil {
-				if c.IsInvoke() && c.Method.Name() == "WriteHeader" {
-					under = append(under, in)
-				} else if f := c.StaticCallee(); f != nil && f.Name() == "WriteHeader" && f != fn {
-					under = append(under, in)
-				}
-			}
-		})
-		should := false
-		if hd != nil {
-			loop := naturalLoop(hd)
-			allInstrs(fn, func(in ssa.Instruction) {
-				if c := callOf(in); c != nil && c.IsInvoke() && c.Method.Name() == "ShouldCompress" && loop[in.Block()] {
-					should = true
-				}
-			})
-		}
-		okOrder := hd != nil && len(under) >= 2
-		if hd != nil {
-			loop := naturalLoop(hd)
-			exits := map[edge]bool{}
-			for _, e := range loopExitEdges(loop) {
-				exits[e] = true
-			}
-			for _, u := range under {
-				if !onlyVia(fn, u, exits) {
-					okOrder = false
-				}
-			}
-		}
-		r.Check(should && okOrder, "R2", "gzip.(*ResponseFilterWriter).WriteHeader/decide-before-commit", fn.Pos(), "every response filter is consulted, and the compress/identity decision is final, before either underlying WriteHeader runs")
+		// decided along call sequences (E10, c18FilterWriterTable): the filters are consulted before the first commit,
+		// and what follows keeps the route the first header announced
+		bad, n := c18FilterWriterTable(h)
+		r.Check(bad == "", "R2", "gzip.(*ResponseFilterWriter).WriteHeader/decide-before-commit", fn.Pos(), "every response filter is consulted before the header is committed, and the decision taken then holds for the rest of the response", sprintf("%d call sequences evaluated", n), bad)
 	}
 	if fn := h.fn("R2", gzPkg, "(*ResponseFilterWriter).Write"); fn != nil {
 		// decided as a table (E10): with the header written, the body goes to the gzip writer exactly when the
